@@ -1,22 +1,36 @@
 """C07 every accepted program compiles to SQL the selected dialect parses and binds."""
 import itertools, json, random, re
-import vlib, relgen, relcheck, corpus, starexpand, sqlite3
+import vlib, relgen, relcheck, corpus, starexpand, sqlite3, anchortrace
 from vlib import vh_batch, drv_batch
 from props.c01 import SAFE, FULL, UNDECL, RICH
 
 MANIFEST = dict(
-    text="Lean theorems over the dialect flags regenerated from dialect.rs: fetch_needs_offset_and_order, limit_xor_fetch, "
+    text="Lean theorems (i) over the dialect flags regenerated from dialect.rs: fetch_needs_offset_and_order, limit_xor_fetch, "
          "fetch_dialects, clauses_select_range, takes_emitted_correctly (the LIMIT/OFFSET/FETCH clause set emitted for a run of takes "
-         "is well-formed for every dialect and selects exactly the rows of the takes). Ties: the clause mirror is compared with the "
+         "is well-formed for every dialect and selects exactly the rows of the takes); (ii) on the mirror of the pipeline splitter "
+         "(Model.Anchor: split_off_back with its requirement / complexity bookkeeping and can_materialize over the regenerated split "
+         "table, anchor_split with its redirect map): split_scope_closed (for every well-formed pipeline, wherever the scan cuts, the "
+         "required columns contain everything the SELECT of the atomic part reads and each of them is an instance column of the atomic "
+         "part, a kept compute whose own reads - window partition / order included - are required again, or a `missing` column), "
+         "missing_provided_by_preceding (the sub-query defines and selects exactly what the outer SELECT needs from it), "
+         "anchored_block_closed (after the redirect the atomic pipeline has no external column at all: no reference to a column that only "
+         "exists inside the sub-query), for pipelines of any length and any numbering of the fresh ids. Ties: every call of extract_atomic "
+         "made while compiling the corpus is recorded (cargo feature verif) and replayed through the Lean mirror - rest / missing / "
+         "Select / kept transforms / fresh ids / redirected pipeline must agree exactly - and the executable scope predicates are "
+         "evaluated on those real pipelines; the clause mirror is compared with the "
          "real SQL of every dialect on take chains with and without sort/distinct; every accepted program of a corpus (generated "
          "relational programs, the repository's integration queries and book examples, hand-written window/set-operation/loop/cast/"
          "std-function programs) is compiled for all 12 dialects and the text is parsed with sqlparser's grammar for that dialect "
          "(exactly one statement); for sqlite and generic the generated programs are also prepared and executed on SQLite against a "
          "schema holding the referenced tables (binding).",
     note="the grammar of each dialect is sqlparser's (trusted; the same crate that printed the text), not a Lean object; for the ten "
-         "non-executable dialects the claim is 'parses', binding is checked on SQLite only. Scope correctness of CTE/alias references "
-         "(scope_ok) has no Lean model yet.",
-    technique="Lean 4 proofs of the dialect clause rules over regenerated flags + per-dialect parse / SQLite bind run", ref="4/C07")
+         "non-executable dialects the claim is 'parses', binding is checked on SQLite only. The scope theorems speak about the "
+         "requirement bookkeeping of the splitter (what get_requirements declares as read); that gen_query prints nothing else is "
+         "covered by the SQLite bind run, and the ORDER BY that postprocess derives from a take's embedded sort is outside the theorem "
+         "(listed finding orderby-column-out-of-scope lives there). Preprocess (distinct / set-operation recognition / reorder), "
+         "CTE naming and the recursion over nested relations are not mirrored.",
+    technique="Lean 4 proofs: scope invariant of the mirrored pipeline splitter (induction over the back-to-front scan) + dialect clause rules over regenerated flags; "
+              "replay of every recorded split through the mirror; per-dialect parse / SQLite bind run", ref="4/C07")
 
 SQLPARSER_DIALECT = {"ansi": "ansi", "bigquery": "bigquery", "clickhouse": "clickhouse", "duckdb": "duckdb", "generic": "generic",
                      "glaredb": "postgres", "mssql": "mssql", "mysql": "mysql", "postgres": "postgres", "redshift": "redshift",
@@ -118,7 +132,8 @@ def classify_text(prql, sql, err, dialect):
 
 def run(ctx):
     br = vlib.standard_proof_obligations(ctx, ["PrqlModel.Props.C07"], ["Dialects"],
-        required_theorems=["fetch_needs_offset_and_order", "limit_xor_fetch", "fetch_dialects", "clauses_select_range", "takes_emitted_correctly"])
+        required_theorems=["fetch_needs_offset_and_order", "limit_xor_fetch", "fetch_dialects", "clauses_select_range", "takes_emitted_correctly",
+                            "split_scope_closed", "missing_provided_by_preceding", "anchored_block_closed", "split_closed_monitor"])
     ctx.rule = ("(i) take chains x {sorted, unsorted} x 12 dialects: LIMIT/OFFSET/FETCH/ORDER BY filler of the real SQL vs the Lean clause "
                 "mirror; (ii) every accepted program of the corpus x 12 dialects parsed with sqlparser's dialect grammar (one statement); "
                 "(iii) generated relational programs executed on SQLite (sqlite and generic targets); a case = (program, dialect); "
@@ -269,6 +284,18 @@ def run(ctx):
                 ctx.oracle_failure(fid, f"{target}: SQLite rejects the emitted SQL: {r['detail']}",
                                    {"prql": c.prql, "target": target, "sql": r.get("sql"), "db": c.db, "schema": c.schema_list, "detail": r["detail"], "class": fid},
                                    det_key=(orig.prql, target, "bind") if getattr(orig, "det", False) else None)
+    # (iv) the splitter mirror: every call of extract_atomic recorded while compiling the corpus is replayed through
+    # Model.Anchor.splitOffBack / anchorSplit (exact agreement), and the scope predicates are evaluated on the real pipelines
+    trace_progs = [p for _, p in progs if not re.search(r"^\s*prql ", p, re.M)] + [c.prql for c in gen_cases]
+    if quick:
+        trace_progs = trace_progs[:900]
+    n_ev, n_bad, hooked = anchortrace.run_suite(ctx, trace_progs, "anchor", targets=("sql.sqlite", "sql.postgres", "sql.mssql"))
+    if hooked:
+        ctx.obligation("correspondence: split_off_back / anchor_split = Model.Anchor.splitOffBack / anchorSplit on every recorded call of extract_atomic; "
+                       "every well-formed real pipeline is scope-closed", n_bad == 0 and n_ev > 0, f"{n_ev} recorded calls replayed, {n_bad} differ")
+    else:
+        ctx.count("anchor:skipped (tree has no `verif` hooks)")
+        ctx.assumptions.append("the split trace hook is not available in this tree: the splitter mirror was not compared this run")
     ctx.obligation("oracle: accepted programs parse in their dialect and bind on SQLite (all unlisted cases)",
                    not [v for v in ctx.violations if v["kind"] == "failing-input"], f"{len(pmeta)} (program, dialect) pairs parsed")
 
